@@ -59,10 +59,10 @@ theorem vgrad_length_of_compatible (n : Nat) (c : C α) (x : List α) (hx : x.le
   | linIneq q r => simpa [C.vgrad, linVgrad, C.compatible] using hc
   | quadEq P q r =>
     simp only [C.compatible, Bool.and_eq_true, decide_eq_true_eq] at hc
-    simp [C.vgrad, quadVgrad, vadd, matVec, hc.1.1, hc.2]
+    simp [C.vgrad, quadVgrad, vadd, matVec, matTVec, hx, hc.1.1, hc.2]
   | quadIneq P q r =>
     simp only [C.compatible, Bool.and_eq_true, decide_eq_true_eq] at hc
-    simp [C.vgrad, quadVgrad, vadd, matVec, hc.1.1, hc.2]
+    simp [C.vgrad, quadVgrad, vadd, matVec, matTVec, hx, hc.1.1, hc.2]
   | funEq size f => exact hf size f (Or.inl rfl)
   | funIneq size f => exact hf size f (Or.inr rfl)
 
